@@ -270,7 +270,7 @@ def minimise(mod, sc, seed, decisions, sig, budget_s=40.0):
 
 
 def write_replay(pid, sc, seed, decisions, v, digest, extra=None):
-    d = os.path.join(VERIF, "replays")
+    d = os.environ.get("VERIF_REPLAY_DIR") or os.path.join(VERIF, "replays")
     os.makedirs(d, exist_ok=True)
     name = "%s-%s-%s.json" % (pid, hashlib.sha256(v["sig"].encode()).hexdigest()[:8], seed)
     path = os.path.join(d, name)
